@@ -11,9 +11,9 @@ if [ ! -d "$WT" ]; then
 fi
 cd "$WT" || exit 2
 git checkout -q --detach "$(git -C /repo rev-parse HEAD)" 2>/dev/null
-for X in A B; do
+for X in A B; do Y=$X; [ -n "${ROUND2:-}" ] && { [ $X = A ] && Y=C || Y=D; }
   D="$SRC/out/$X"; [ -f "$D/patch.diff" ] || continue
-  OUT=/verif/seeded/$ID-$X; LOG=$(mktemp)
+  OUT=/verif/seeded/$ID-$Y; LOG=$(mktemp)
   git checkout -q -- . ; rm -f tests/demo.rs
   if ! git apply "$D/patch.diff" 2>>"$LOG"; then
     if ! git apply -3 "$D/patch.diff" 2>>"$LOG"; then echo "$ID-$X: patch does not apply"; cat "$LOG"; continue; fi
@@ -31,7 +31,7 @@ for X in A B; do
     rm -f tests/demo.rs
   fi
   git checkout -q -- .
-  echo "$ID-$X: builds=$builds suite_passes=$suite demo_fails_with_change=$demo_fails demo_passes_without=$demo_passes"
+  echo "$ID-$Y: builds=$builds suite_passes=$suite demo_fails_with_change=$demo_fails demo_passes_without=$demo_passes"
   if $builds && $suite && $demo_fails && $demo_passes; then
     mkdir -p "$OUT"; cp /tmp/confirm_patch.diff "$OUT/patch.diff"; cp "$D/demo.rs" "$OUT/demo.rs"
     [ -f "$D/demo.sh" ] && cp "$D/demo.sh" "$OUT/demo.sh"
